@@ -1,4 +1,4 @@
-import Abverif.Model.Utf8
+import Abverif.Model.Utf8Spec
 /-
 C09 helper lemmas, part 1: grammar ⇔ decision procedure ⇔ automaton.
 `lang s` is the residual language of automaton state `s` written from the grammar: the byte strings that
